@@ -812,7 +812,7 @@ class Executor:
                 d = self.discr(st, v)
                 m = INT_BITS[ty]
                 return Sym(z3.Extract(m - 1, 0, d) if m < 64 else d, ty)
-        if kind.startswith(("Transmute", "PtrToPtr", "PointerCoercion", "PointerExposeProvenance", "PointerWithExposedProvenance", "FnPtrToPtr")):
+        if kind.startswith(("Transmute", "PtrToPtr", "PointerCoercion", "PointerExposeProvenance", "PointerWithExposedProvenance", "FnPtrToPtr", "Subtype")):
             if isinstance(v, Lazy):
                 return Lazy(v.oid, ty, v.label, v.depth, v.tags) if strip_ref(ty)[1] == strip_ref(v.ty)[1] else v
             return v
